@@ -1,7 +1,71 @@
-(** C13 (placeholder while the pipeline is brought up). *)
+(** C13: the configuration upgrade never panics, reaches the requested schema
+    version, keeps the input on error, is idempotent at the current version,
+    preserves settings no step concerns, and does not depend on the path.
+    Only statements here; proofs live in Proofs/Migrate*.v.  All theorems hold
+    for every instance of the external functions (bcrypt, URL splitting,
+    address parsing, data directory), which enter as the oracle record [O]. *)
 From Coq Require Import List ZArith String.
-From AGH Require Import Model.Migrate.
+From AGH Require Import Model.Migrate Proofs.Migrate Proofs.MigrateFrame.
+Import ListNotations.
+Local Open Scope string_scope.
+Local Open Scope Z_scope.
 
-Theorem C13_table_length : forall O, Z.of_nat (List.length (steps O)) = last_version.
-Proof. reflexivity. Qed.
-Print Assumptions C13_table_length.
+(** For every decoded document (including the nil map an explicit null
+    document leaves), every target: no run-time panic. *)
+Theorem C13_no_panic : forall O top target, migrate O top target <> OPanic.
+Proof. exact migrate_no_panic. Qed.
+Print Assumptions C13_no_panic.
+
+(** Every step assigns into the top-level map first: without the guard that
+    replaces a nil map by an empty one, a null document would panic. *)
+Theorem C13_steps_need_non_nil_map : forall O s, In s (map snd (steps O)) -> s None = Panic.
+Proof. exact nil_map_would_panic. Qed.
+Print Assumptions C13_steps_need_non_nil_map.
+
+(** An error comes with the unchanged input body and "not upgraded". *)
+Theorem C13_error_keeps_input : forall O top target,
+  migrate O top target = OErr ->
+  returned_body (migrate O top target) = None /\ is_upgraded (migrate O top target) = false.
+Proof. exact migrate_error_keeps_input. Qed.
+Print Assumptions C13_error_keeps_input.
+
+(** A new body carries the target version. *)
+Theorem C13_stamped : forall O top target m',
+  migrate O top target = ONew m' -> get "schema_version" m' = Some (VInt target).
+Proof. exact migrate_stamped. Qed.
+Print Assumptions C13_stamped.
+
+(** A document at the target version is returned unchanged, and so is the
+    re-read result of any upgrade. *)
+Theorem C13_idempotent_at_current : forall O m target,
+  get "schema_version" m = Some (VInt target) -> 0 <= target <= last_version ->
+  migrate O (Some m) target = OSame.
+Proof. exact migrate_at_target. Qed.
+Print Assumptions C13_idempotent_at_current.
+
+Theorem C13_idempotent_after_upgrade : forall O top target m',
+  migrate O top target = ONew m' -> migrate O (Some (norm_obj m')) target = OSame.
+Proof. exact migrate_idempotent. Qed.
+Print Assumptions C13_idempotent_after_upgrade.
+
+(** Top-level keys outside [written] (and the version stamp) keep their value
+    through any upgrade. *)
+Theorem C13_frame : forall O top target m' k,
+  migrate O top target = ONew m' -> mem_b k written = false -> k <> "schema_version" ->
+  get k m' = get k (input_map top).
+Proof. exact migrate_frame. Qed.
+Print Assumptions C13_frame.
+
+(** Non-vacuity: a concrete version-22 document upgrades to 29, keeps a key no
+    step concerns; an ill-typed one fails; a null document upgrades. *)
+Example C13_premises_satisfiable :
+  (exists m', migrate oracles0 (Some doc22) 29 = ONew m' /\
+     get "schema_version" m' = Some (VInt 29) /\ get "theme" m' = Some (VStr "auto")) /\
+  migrate oracles0 (Some [("schema_version", VInt 10); ("rlimit_nofile", VStr "x")]) 29 = OErr /\
+  (exists m', migrate oracles0 None 29 = ONew m' /\ get "schema_version" m' = Some (VInt 29)) /\
+  mem_b "theme" written = false.
+Proof.
+  split; [destruct doc22_upgrades as (m' & H1 & H2 & H3 & _); eauto|].
+  split; [exact doc_error|]. split; [exact doc_null_document|reflexivity].
+Qed.
+Print Assumptions C13_premises_satisfiable.
